@@ -1,0 +1,17 @@
+//go:build verif
+
+package compaction
+
+import "sort"
+
+// VerifKeys returns the keys the tracker currently knows as deleted (sorted).
+func (t *TombstoneTracker) VerifKeys() []string {
+	t.mu.RLock()
+	defer t.mu.RUnlock()
+	keys := make([]string, 0, len(t.deletions))
+	for k := range t.deletions {
+		keys = append(keys, k)
+	}
+	sort.Strings(keys)
+	return keys
+}
